@@ -308,6 +308,7 @@ Theorem C03_choice : forall e peer peer_port from rs tcp m0 x x',
     same_rr (x_p x) p1 /\
     (forall nm, disjoint_names nm (s2b "Via") -> disjoint_names nm (s2b "CSeq") ->
                 disjoint_names nm (s2b "Route") -> disjoint_names nm (s2b "To") -> frame nm m0 m1) /\
+    via_rel m0 m1 /\
     route_view m1 = skipn (route_consumed (e_cfg e) from (c_keep_next_hop (e_cfg e)) (route_view m0)) (route_view m0) /\
     match effective_hop (e_cfg e) from m0 with
     | HopAddr host port transport =>
@@ -324,9 +325,10 @@ Proof.
   pose proof (next_request_hop_route keep rt m4) as NR.
   pose proof (fun nm D1 D2 => frame_next_request_hop nm keep rt m4 D1 D2) as FN.
   destruct (next_request_hop keep rt m4) as [m1 r]. cbn [fst snd] in *.
-  destruct P as (F4 & V4 & SR & ->). exists m1, p1. cbv zeta.
+  destruct P as (F4 & VR & V4 & SR & ->). exists m1, p1. cbv zeta.
   split; [exact SR|].
   split; [intros nm D1 D2 D3 D4; eapply frame_trans; [apply F4; assumption|apply FN; assumption]|].
+  split; [exact (via_rel_trans _ _ _ VR (via_rel_frame _ _ (FN _ dj_Via_Route dj_Via_To)))|].
   split.
   { rewrite NR, V4. apply (route_consumed_skipn (e_cfg e) from keep (route_view m0)). }
   (* the choice *)
@@ -416,7 +418,7 @@ Theorem C03_choice_outputs : forall e peer peer_port from rs tcp m0 x x',
     end.
 Proof.
   intros e peer pp from rs tcp m0 x x' R H.
-  destruct (C03_choice _ _ _ _ _ _ _ _ _ R H) as (m1 & p1 & SR & _ & _ & CH). cbv zeta in CH.
+  destruct (C03_choice _ _ _ _ _ _ _ _ _ R H) as (m1 & p1 & SR & _ & _ & _ & CH). cbv zeta in CH.
   set (x1 := {| x_learned := learned_after peer from m0 x; x_p := p1; x_conns := x_conns x;
                 x_world := x_world x; x_outs := x_outs x |}) in *.
   destruct (effective_hop (e_cfg e) from m0) as [host port transport| | |].
@@ -484,7 +486,7 @@ Theorem C03_backend_member_event : forall e peer peer_port from rs tcp m0 x x',
        (rr_backends (ps_rr (x_p x)) = [] -> extra = [])).
 Proof.
   intros e peer pp from rs tcp m0 x x' R H EH.
-  destruct (C03_choice _ _ _ _ _ _ _ _ _ R H) as (m1 & p1 & SR & _ & _ & CH). cbv zeta in CH. rewrite EH in CH.
+  destruct (C03_choice _ _ _ _ _ _ _ _ _ R H) as (m1 & p1 & SR & _ & _ & _ & CH). cbv zeta in CH. rewrite EH in CH.
   exists m1, p1. split; [exact SR|]. intros NP. subst x'.
   set (x1 := {| x_learned := learned_after peer from m0 x; x_p := p1; x_conns := x_conns x;
                 x_world := x_world x; x_outs := x_outs x |}).
@@ -511,6 +513,64 @@ Theorem C03_unsupported_transport_event : forall e peer peer_port from rs tcp m0
   x_outs x' = x_outs x.
 Proof.
   intros e peer pp from rs tcp m0 x x' host port transport R H EH N1 N2.
-  destruct (C03_choice _ _ _ _ _ _ _ _ _ R H) as (m1 & p1 & _ & _ & _ & CH). cbv zeta in CH. rewrite EH in CH.
+  destruct (C03_choice _ _ _ _ _ _ _ _ _ R H) as (m1 & p1 & _ & _ & _ & _ & CH). cbv zeta in CH. rewrite EH in CH.
   subst x'. rewrite C03_unsupported_transport_dropped by assumption. reflexivity.
+Qed.
+
+(* ------------------------------------------------------------------ C06 end to end *)
+(* The message that leaves for a request, against the received one.  [m1] is the routed message
+   before the proxy inserts itself: its Via stack is the received one (entries beneath the top
+   identical, the top with the same sent-by: only received / rport may have been stamped on it).
+   Relayed to a next hop learned through transport t: exactly one Via of t (branch e_branch e) on
+   top of that stack, Record-Route of t ahead of the received ones iff the request carried a
+   Record-Route or must-record-route is set.  Next hop not learned: neither.  Backend: the same
+   with the first transport of the listener. *)
+Theorem C06_relayed_request : forall e peer peer_port from rs tcp m0 x x',
+  is_request m0 = true ->
+  process_message e peer peer_port from rs tcp m0 x = Ok x' ->
+  exists m1 extra, x_outs x' = x_outs x ++ extra /\ (msg_count extra <= 1)%nat /\ via_rel m0 m1 /\
+    let rr_of t := if (has_header (s2b "Record-Route") m0 || pa_must_rr (wire_proxy (e_lc e)))%bool
+                   then own_record_route t :: all_rr (m_headers m0) else all_rr (m_headers m0) in
+    forall o, In o extra -> is_msg o = true ->
+      exists mo, snd o = write_message mo /\
+        match effective_hop (e_cfg e) from m0 with
+        | HopAddr host _ _ =>
+            match alookup host (learned_after peer from m0 x) with
+            | Some t => all_vias (m_headers mo) = pushed_via e t :: all_vias (m_headers m1) /\
+                        all_rr (m_headers mo) = rr_of t
+            | None => all_vias (m_headers mo) = all_vias (m_headers m1) /\
+                      all_rr (m_headers mo) = all_rr (m_headers m0)
+            end
+        | HopBackend =>
+            exists t0, first_transport (e_lc e) = Some t0 /\
+                       all_vias (m_headers mo) = pushed_via e t0 :: all_vias (m_headers m1) /\
+                       all_rr (m_headers mo) = rr_of t0
+        | _ => False
+        end.
+Proof.
+  intros e peer pp from rs tcp m0 x x' R H.
+  destruct (C03_choice _ _ _ _ _ _ _ _ _ R H) as (m1 & p1 & _ & F & VR & _ & CH). cbv zeta in CH.
+  set (x1 := {| x_learned := learned_after peer from m0 x; x_p := p1; x_conns := x_conns x;
+                x_world := x_world x; x_outs := x_outs x |}) in *.
+  pose proof (F _ dj_RR_Via dj_RR_CSeq dj_RR_Route dj_RR_To) as FR.
+  assert (HR : has_header (s2b "Record-Route") m1 = has_header (s2b "Record-Route") m0) by (apply has_header_frame, FR).
+  assert (AR : all_rr (m_headers m1) = all_rr (m_headers m0)) by (apply all_rr_sel, FR).
+  exists m1. destruct (effective_hop (e_cfg e) from m0) as [host port transport| | |]; [| | |contradiction].
+  - subst x'. destruct (send_message_shape e host port transport (decorate e (x_learned x1) host m1) x1)
+      as (Sm & _ & extra & O & (C & Fo) & _).
+    exists extra. split; [exact O|]. split; [exact C|]. split; [exact VR|]. cbv zeta. intros o Io Mo.
+    rewrite Forall_forall in Fo. eexists. split; [exact (Fo o Io Mo)|]. rewrite Sm. cbn [x_learned x1].
+    rewrite all_vias_client_transaction.
+    rewrite (all_rr_sel _ _ (proj1 (mframe_try _ _ (mframe_client_transaction _ dj_RR_Via dj_RR_CSeq) _))).
+    destruct (alookup host (learned_after peer from m0 x)) as [t|] eqn:A.
+    + destruct (C06_decorate_learned e _ host t m1 A) as (AV & ARR & _). rewrite AV, ARR, HR, AR. split; reflexivity.
+    + rewrite (C06_not_learned_untouched e _ host m1 A), AR. split; reflexivity.
+  - subst x'. destruct (send_to_backend_shape e m1 x1) as (_ & extra & O & D). exists extra. split; [exact O|].
+    destruct D as [->|(t0 & a & d & FT & _ & -> & _)].
+    + split; [apply Nat.le_0_l|]. split; [exact VR|]. cbv zeta. intros o [].
+    + split; [unfold msg_count; cbn [filter]; destruct (is_msg _); cbn [List.length]; lia|]. split; [exact VR|].
+      cbv zeta. intros o [<-|[]] _. eexists. split; [reflexivity|]. exists t0. split; [exact FT|].
+      destruct (C06_backend_decorates e t0 (x_p x1) m1) as (AV & ARR). rewrite AV, ARR, HR, AR. split; reflexivity.
+  - subst x'. exists []. cbn [x_outs x1]. rewrite app_nil_r. split; [reflexivity|]. split; [apply Nat.le_0_l|].
+    split; [exact VR|]. cbv zeta. intros o [].
 Qed.
